@@ -80,6 +80,7 @@ type evalResult struct {
 	exps              []expectation
 	lookups           int
 	concurrentLookups int
+	concurrentFirst   int
 	loads             int
 	loadErrs          int
 	loadErrTexts      map[string]struct{}
@@ -178,6 +179,64 @@ func (ev *evaluator) eval(d *doc, loads, passes int, rng *rand.Rand) *evalResult
 			for i := range curSet {
 				curSet[i] = false
 			}
+			// the documented contract lets EntryForRegistry be called concurrently: with the real helper
+			// programs, overlapping lookups on a ConfigFile must answer as sequential ones do - also when
+			// they are the very first lookups on a freshly loaded file (second load: compared with the first
+			// load's sequential answers)
+			concurrentPhase := func(base []outcome, baseSet []bool, when string) {
+				// the documented contract lets EntryForRegistry be called concurrently: with the real
+				// helper programs, overlapping lookups on this ConfigFile must answer as the sequential ones did
+				var cwg sync.WaitGroup
+				var cmu sync.Mutex
+				diffs := map[int]outcome{}
+				textDiffs := map[int]string{}
+				for g := 0; g < 6; g++ {
+					cwg.Add(1)
+					go func(g int) {
+						defer cwg.Done()
+						defer func() {
+							if e := recover(); e != nil {
+								st := debug.Stack()
+								cmu.Lock()
+								r.add(finding{Key: "total/EntryForRegistry/panic/" + evid.PanicSite(st), What: fmt.Sprintf("panic in a concurrent EntryForRegistry: %v", e), Stack: string(st)})
+								cmu.Unlock()
+							}
+						}()
+						for k := range names {
+							i := (k + g*3) % len(names)
+							e, err := cf.EntryForRegistry(names[i])
+							o := outcome{Err: err != nil}
+							if err == nil {
+								o.E = e
+							} else if t := err.Error(); errText[i] != "" && errText[i] != t {
+								cmu.Lock()
+								textDiffs[i] = t
+								cmu.Unlock()
+							}
+							if baseSet[i] && base[i] != o {
+								cmu.Lock()
+								diffs[i] = o
+								cmu.Unlock()
+							}
+						}
+					}(g)
+				}
+				cwg.Wait()
+				r.concurrentLookups += 6 * len(names)
+				for i, o := range diffs {
+					r.add(finding{Key: "determinism/concurrent-lookups", What: fmt.Sprintf("EntryForRegistry(%q) answered %s while other lookups on the same ConfigFile were in flight; sequentially (%s) it answered %s", names[i], showOutcome(o), when, showOutcome(base[i])),
+						Lookup: names[i], Observed: showOutcome(o), Expected: showOutcome(base[i])})
+				}
+				if len(textDiffs) > 0 {
+					// informational: the text of a failure is not a function of the file on the pinned tree either
+					// (which of two applicable complaints is raised depends on the decode order of a Go map)
+					r.lookupTextVar = true
+				}
+			}
+			if ev.runner == nil && l == 1 && len(names) > 1 {
+				concurrentPhase(ref, refSet, "on an earlier load of the same file")
+				r.concurrentFirst++
+			}
 			for p := 0; p < passes; p++ {
 				order = order[:0]
 				for i := range names {
@@ -232,44 +291,7 @@ func (ev *evaluator) eval(d *doc, loads, passes int, rng *rand.Rand) *evalResult
 				}
 			}
 			if ev.runner == nil && l == 0 && len(names) > 1 {
-				// the documented contract lets EntryForRegistry be called concurrently: with the real
-				// helper programs, overlapping lookups on this ConfigFile must answer as the sequential ones did
-				var cwg sync.WaitGroup
-				var cmu sync.Mutex
-				diffs := map[int]outcome{}
-				for g := 0; g < 6; g++ {
-					cwg.Add(1)
-					go func(g int) {
-						defer cwg.Done()
-						defer func() {
-							if e := recover(); e != nil {
-								st := debug.Stack()
-								cmu.Lock()
-								r.add(finding{Key: "total/EntryForRegistry/panic/" + evid.PanicSite(st), What: fmt.Sprintf("panic in a concurrent EntryForRegistry: %v", e), Stack: string(st)})
-								cmu.Unlock()
-							}
-						}()
-						for k := range names {
-							i := (k + g*3) % len(names)
-							e, err := cf.EntryForRegistry(names[i])
-							o := outcome{Err: err != nil}
-							if err == nil {
-								o.E = e
-							}
-							if curSet[i] && cur[i] != o {
-								cmu.Lock()
-								diffs[i] = o
-								cmu.Unlock()
-							}
-						}
-					}(g)
-				}
-				cwg.Wait()
-				r.concurrentLookups += 6 * len(names)
-				for i, o := range diffs {
-					r.add(finding{Key: "determinism/concurrent-lookups", What: fmt.Sprintf("EntryForRegistry(%q) answered %s while other lookups on the same ConfigFile were in flight; sequentially it answered %s", names[i], showOutcome(o), showOutcome(cur[i])),
-						Lookup: names[i], Observed: showOutcome(o), Expected: showOutcome(cur[i])})
-				}
+				concurrentPhase(cur, curSet, "just before, on this ConfigFile")
 			}
 			vec := append([]outcome(nil), cur...)
 			for _, v := range vectors {
@@ -668,6 +690,7 @@ func account(phase string, d *doc, r *evalResult, c map[string]int, dist map[str
 	c[p+"loads"] += r.loads
 	c[p+"lookups"] += r.lookups
 	c[p+"concurrent_lookups"] += r.concurrentLookups
+	c[p+"concurrent_first_lookups_on_fresh_load"] += r.concurrentFirst
 	if d.Invalid {
 		c[p+"invalid_auth_docs"]++
 		c[p+"invalid_auth_loads_rejected"] += r.loadErrs
